@@ -143,4 +143,28 @@ def randoms(tier, rng):
             seg.append(dict(op="nearest", a=rng.randint(0, 8), b=0))
         burst.append(seg)
     out.append(dict(tag="burst", segs=burst, trace_consts=TRACE_CONSTS, replays=_replays([rng.randint(0, 3)])))
+    # epoch cycles: stamps written by one walk must not be mistaken for "visited" a whole counter period later.
+    # spin(n) = n traversal starts abandoned after one element (each advances the epoch, stamps only the minimum)
+    cyc = []
+    for c in range(4 if tier == "quick" else 12):
+        seg = []
+        nk = rng.randint(2, 7)
+        for k in rng.sample(range(1, 9), nk):
+            seg.append(dict(op="put", a=k, b=1))
+        for rnd in range(4 if tier == "quick" else 8):
+            # a complete or partial walk leaves stamps behind
+            if rng.random() < 0.6:
+                seg.append(dict(op="walk", a=0, b=0))
+            else:
+                j = rng.randint(1, nk)
+                seg += [dict(op="next", a=0, b=0)] * j + [dict(op="abandon", a=0, b=0)]
+            n = rng.choice([252, 253, 254, 255, 256, 257, 508, 509, 510, 511])
+            seg += [dict(op="next", a=0, b=0), dict(op="abandon", a=0, b=0)] * n
+            seg.append(dict(op="walk", a=0, b=0))
+            seg.append(dict(op="nearest", a=rng.randint(0, 9), b=1))
+            seg += [dict(op="next", a=0, b=0)] * (nk + 1)
+            if rng.random() < 0.5:
+                k = rng.randint(1, 8); seg.append(dict(op="rm", a=k, b=0)); seg.append(dict(op="put", a=k, b=2))
+        cyc.append(seg)
+    out.append(dict(tag="cycle", segs=cyc, trace_consts=TRACE_CONSTS, replays=_replays([rng.randint(0, 3)])))
     return out
